@@ -1,4 +1,5 @@
 import RedisEmu.Exec
+import RedisEmu.Proofs.GoArith
 import Mathlib.Tactic.SplitIfs
 /-
   C18 — bitmap commands. Theorems about `RedisEmu.Bits` (family `bits` of the correspondence run
@@ -351,5 +352,50 @@ theorem bitcount_whole (c : Ctx) (db : Db) (k b : Bytes) (x : Option Int) (i : N
     rw [← popcount_bits]
     have ht : (((y :: r).length : Int) - 1 - 0 + 1).toNat = (y :: r).length := by omega
     simp only [Int.toNat_zero, List.drop_zero, ht, List.take_length]
+
+/-! ### the arithmetic helpers of `bitMath.go` as the Go source has them now
+    (`GoArith.lean`, written by `tools/go2lean` from /repo's working tree before every build) -/
+
+/-- BITFIELD INCRBY / SET on a signed field: the Go test `isSignedSumOverflow`, for every width i1..i64,
+    every field value of that width and every int64 operand, is what `bfStep` uses as "out of bounds" —
+    the true sum leaves the signed range of the field. -/
+theorem bitfield_signed_overflow_as_coded (a b : BitVec 64) (bits : Nat) (h1 : 1 ≤ bits) (h2 : bits ≤ 64)
+    (hr : -(2 : Int) ^ (bits - 1) ≤ a.toInt ∧ a.toInt < (2 : Int) ^ (bits - 1)) :
+    Go.isSignedSumOverflow a b (BitVec.ofNat 64 bits) = specSignedOverflow a.toInt b.toInt bits :=
+  go_isSignedSumOverflow a b bits h1 h2 hr
+
+/-- BITFIELD SET passes 0 as the field value: only the operand has to fit (`specSignedRange`) -/
+theorem bitfield_set_overflow_as_coded (b : BitVec 64) (bits : Nat) (h1 : 1 ≤ bits) (h2 : bits ≤ 64) :
+    Go.isSignedSumOverflow 0#64 b (BitVec.ofNat 64 bits) = specSignedRange b.toInt bits := by
+  have hp : (0 : Int) < (2 : Int) ^ (bits - 1) := Int.pow_pos (by omega)
+  rw [go_isSignedSumOverflow 0#64 b bits h1 h2 (by simp)]
+  simp [specSignedOverflow, specSignedRange]
+
+/-- unsigned fields u1..u63: on a value that is not negative the Go test `isUnsignedOverflow` is
+    "does not fit into the field" (the caller tests `newValue < 0` first) -/
+theorem bitfield_unsigned_overflow_as_coded (v : BitVec 64) (bits : Nat) (h1 : 1 ≤ bits) (h2 : bits ≤ 63)
+    (hv : 0 ≤ v.toInt) :
+    Go.isUnsignedOverflow v (BitVec.ofNat 64 bits) = decide (v.toInt ≥ (2 : Int) ^ bits) :=
+  go_isUnsignedOverflow v bits h1 h2 hv
+
+/-- OVERFLOW SAT: `saturateValue` gives the bound of the field on the side the operand pushes to -/
+theorem bitfield_saturation_as_coded (v : BitVec 64) (bits : Nat) (h1 : 1 ≤ bits) :
+    (bits ≤ 64 → (Go.saturateValue true v (BitVec.ofNat 64 bits)).toInt =
+        if v.toInt < 0 then -(2 : Int) ^ (bits - 1) else (2 : Int) ^ (bits - 1) - 1) ∧
+    (bits ≤ 63 → (Go.saturateValue false v (BitVec.ofNat 64 bits)).toInt =
+        if v.toInt < 0 then 0 else (2 : Int) ^ bits - 1) :=
+  ⟨fun h => go_saturateValue_signed v bits h1 h, fun h => go_saturateValue_unsigned v bits h1 h⟩
+
+/-- what the translator delivered on this run (a function that disappears or leaves the translatable
+    subset makes the translator fail, and this list change) -/
+theorem go_arith_translated :
+    Go.translated = ["isSignedSumOverflow", "isUnsignedOverflow", "saturateValue", "signExtend", "isPowerOfTwo",
+      "addIntOverflowGuard", "fieldAddIntOverflowGuard"] := rfl
+
+/-- non-vacuity: i8, 100 + 100 overflows, 100 + 27 does not; i64 at the edge -/
+theorem bitfield_signed_overflow_examples :
+    Go.isSignedSumOverflow 100#64 100#64 8#64 = true ∧ Go.isSignedSumOverflow 100#64 27#64 8#64 = false ∧
+    Go.isSignedSumOverflow (BitVec.ofInt 64 (-1)) 1#64 64#64 = false ∧
+    Go.isSignedSumOverflow (BitVec.ofInt 64 9223372036854775807) 1#64 64#64 = true := by decide
 
 end RedisEmu
